@@ -38,6 +38,35 @@ EmitSim == TLCGet("level") # SimDepth \/ PrintT("SCHEDULE " \o ToJson(Schedule))
 (* a conf change is committed somewhere, so that crashes and restarts meet switched configurations                        *)
 CrashAfterConfChange == act'.name = "Crash" => \E i \in Server : \E k \in 1..commit[i] : log[i][k].c # 0
 
+(* Scripted search: an attack that needs five nodes and some thirty steps is out of reach of a blind search; its outline is  *)
+(* written down as a sequence of step patterns and TLC explores only behaviours that follow it (which messages an action     *)
+(* loses at send time stays open). TLC thereby CHECKS that the outline is a behaviour of the weakened specification that     *)
+(* ends in a safety violation, and fills in every message.  ACTION_CONSTRAINT Scripted; Script <- <the outline>.              *)
+CONSTANT Script
+Pat(name, i, ty, fr, to) == [name |-> name, i |-> i, ty |-> ty, fr |-> fr, to |-> to]
+Cmp(i) == Pat("Campaign", i, "", 0, 0)
+Prp(i) == Pat("Propose", i, "", 0, 0)
+Dlv(ty, fr, to) == Pat("Deliver", 0, ty, fr, to)
+StepMatches(a, p) ==
+    /\ a.name = p.name
+    /\ (p.name \in {"Campaign", "Propose"} => a.i = p.i)
+    /\ (p.name = "Deliver" => a.m.ty = p.ty /\ a.m.fr = p.fr /\ a.m.to = p.to)
+Scripted == LET k == TLCGet("level") IN k > Len(Script) \/ StepMatches(act', Script[k])
+NoScript == <<>>
+
+(* W_KeepMatchOnReset, five nodes.  1 leads term 1 and replicates two entries to 2 only (uncommitted: 2 of 5); 3 is elected by *)
+(* 4 and 5, its empty entry reaches 1 (whose tail is truncated), 4 and 5; 1 is elected again by 4 and 5 - with Match[2] = 2  *)
+(* left over from term 1 - appends its empty entry at index 2 and needs only ONE real acknowledgement (4) to "commit" it;      *)
+(* then 5 is elected by 2 and 3, none of which holds that entry.                                                               *)
+KeepMatchScript == <<
+    Cmp(1), Dlv("Vote", 1, 2), Dlv("Vote", 1, 4), Dlv("Vote", 1, 3), Dlv("VoteResp", 2, 1), Dlv("VoteResp", 4, 1),
+    Dlv("App", 1, 2), Dlv("AppResp", 2, 1), Prp(1), Dlv("App", 1, 2), Dlv("AppResp", 2, 1),
+    Cmp(3), Dlv("Vote", 3, 4), Dlv("Vote", 3, 5), Dlv("VoteResp", 4, 3), Dlv("VoteResp", 5, 3),
+    Dlv("App", 3, 1), Dlv("App", 3, 4), Dlv("App", 3, 5),
+    Cmp(1), Dlv("Vote", 1, 4), Dlv("Vote", 1, 5), Dlv("VoteResp", 4, 1), Dlv("VoteResp", 5, 1),
+    Dlv("App", 1, 4), Dlv("AppResp", 4, 1),
+    Cmp(5), Dlv("Vote", 5, 2), Dlv("Vote", 5, 3), Dlv("VoteResp", 2, 5), Dlv("VoteResp", 3, 5) >>
+
 (* weakened instances: print the schedule that breaks safety, then report the violation *)
 EmitAttackM == (Safety /\ MatchSound) \/ (PrintT("ATTACK " \o ToJson(ScheduleNoState)) /\ FALSE)
 EmitAttack == Safety \/ (PrintT("ATTACK " \o ToJson(ScheduleNoState)) /\ FALSE)
